@@ -25,8 +25,8 @@ outcomes, never defaulted; the theorems show they do not occur from well-formed 
 import ArvVerif.Base.Bytes
 namespace ArvVerif.C08
 
-/-- A Keep locator. The model never looks inside it. -/
-abbrev Loc := String
+/-- A Keep locator, as the bytes of its text. The model never looks inside it. -/
+abbrev Loc := Bytes
 
 /-- Keep as a content store: locator ↦ block. -/
 abbrev Store := Loc → Option Bytes
